@@ -528,7 +528,7 @@ PROPS['C04'] = dict(
     technique=T_CB + ' (harness-enforced), bounded unwinding on capacity-shrunk copies, native replay',
     explanation=EXPL_COMMON,
     assumptions=['composition: equal msa after reading => equal result (kalign_run is a function of the msa, see C16)'])
-Q(id='C04.detect_aligned.manyrows', props=['C04', 'C17', 'C01'], cls='B', harness='c04_detect_aligned.c', entry='h_c04_detect_aligned',
+Q(id='C04.detect_aligned.manyrows', props=['C04', 'C17', 'C01', 'C03'], cls='B', harness='c04_detect_aligned.c', entry='h_c04_detect_aligned',
   mode='wrap', unwind=64, timeout=600, funcs=['detect_aligned'], trusted=[TRUST_MSG], native_srcs=['lib/src/tldevel.c', 'lib/src/msa_alloc.c', 'lib/src/alphabet.c'],
   assumptions=[A_NOFAIL, A_WRAP, 'bounded: 61 rows, all equal to one gap-free row record of 2 residues except possibly one row at a symbolic position (1 residue, symbolic gap counts 0..3)'])
 
@@ -804,7 +804,7 @@ def _profile_mirror_shapes(tier):
     sh = _profile_shapes(tier)
     # measured: the mirror query finishes only for a group of 2 against a single sequence (others > 1200 s): not registered
     return sh[1:2] if tier == 'quick' else [x for x in sh if x['name'].startswith('ka2_kb1_')]
-Q(id='C07.profiles.fwd_groups', props=['C07'], cls='B', harness='c07_profiles.c', entry='h_c07_profiles', shapes=_profile_shapes,
+Q(id='C07.profiles.fwd_groups', props=['C07', 'C08'], cls='B', harness='c07_profiles.c', entry='h_c07_profiles', shapes=_profile_shapes,
   mode='wrap', unwind=8, timeout=900, funcs=['aln_seqprofile_foward', 'aln_profileprofile_foward', 'make_profile_n', 'update_n', 'set_gap_penalties_n'],
   srcs=['lib/src/aln_mem.c'], native_srcs=['lib/src/tldevel.c', 'lib/src/aln_mem.c'], trusted=[TRUST_MSG],
   assumptions=[A_FLOAT, A_KFLOAT, A_WRAP, A_NOFAIL, 'bounded: groups of 2 (thorough 3) identical copies against a single sequence or a group of 2, rectangles 1-2 rows x 2 (3) columns, 3 residue codes; profiles are built by the real make_profile_n / update_n (diagonal path) / set_gap_penalties_n'])
